@@ -28,6 +28,7 @@ INT_MIN = -2147483648
 
 BINOPS = ["*", "/", "%", "+", "-", "<<", ">>", "<", ">", "<=", ">=", "==", "!=", "&", "^", "|", "&&", "||", ","]
 UNOPS = ["+", "-", "!", "~"]
+UNOPS_SET = {"u+", "u-", "u!", "u~"}
 PREC = {",": 1, "?:": 3, "||": 4, "&&": 5, "|": 6, "^": 7, "&": 8, "==": 9, "!=": 9,
         "<": 10, ">": 10, "<=": 10, ">=": 10, "<<": 11, ">>": 11, "+": 12, "-": 12,
         "*": 13, "/": 13, "%": 13}
@@ -308,6 +309,8 @@ def lit_feats(n):
         f.append("decimal")
     if "'" in s:
         f.append("sep")
+        if f[0] == "hex" and re.search(r"'[a-fA-F]", s):
+            f.append("sepalpha")
     if suf:
         f.append("suffix=" + suf.lower())
     return f
@@ -323,7 +326,7 @@ def root_sig(n):
         # numeric: base [+sep] [+suffix] (the suffix letters folded to u / l / ul classes)
         out = [f[0]]
         if "sep" in f:
-            out.append("sep")
+            out.append("sep-before-letter" if "sepalpha" in f else "sep")
         for x in f:
             if x.startswith("suffix="):
                 sx = x[7:]
@@ -597,7 +600,8 @@ class ExprGen:
             elif r < 0.86:
                 force = ("cond",)
             elif r < 0.94 and self.casts:
-                force = ("cast", rng.choice(["c", "c", "static", "func"]), rng.choice(CAST_TYPES))
+                force = ("cast", rng.choice(["c", "c", "static", "func"]),
+                         rng.choice(["int", "int", "int", "bool", "bool", "bool", "unsigned", "unsigned", "char"]))
             else:
                 force = ("par",)
         k = force[0]
@@ -657,22 +661,23 @@ class ExprGen:
 # ---------------------------------------------------------------------------
 
 def literal_reductions(n):
-    """simpler spellings of the same literal value, simplest last: drop suffix, drop separators, decimal."""
+    """simpler spellings of the same literal value, tried in this order (each kept if the failure persists):
+    drop the encoding prefix (chars), drop the suffix, drop the digit separators, finally plain decimal."""
     s = n[1]
     out = []
-    if "'" in s[:1] or re.match(r"^(u8|u|U|L)?'", s):
-        m = re.match(r"^(u8|u|U|L)'", s)
-        if m:
+    m = re.match(r"^(u8|u|U|L)?'", s)
+    if m:
+        if m.group(1):
             out.append(["lit", s[len(m.group(1)):], n[2], "i"])
-        return out
-    t = s
-    is_hex = t.replace("'", "").lower().startswith("0x")
-    m = re.search(r"[uUlLzZ]+$", t)
-    if m and not (is_hex and False):
-        t2 = t[:m.start()]
-        out.append(["lit", t2, n[2], "i"])
-        t = t2
-    if "'" in t:
-        t = t.replace("'", "")
-        out.append(["lit", t, n[2], "i"])
+    else:
+        t = s
+        m = re.search(r"[uUlLzZ]+$", t)
+        if m:
+            t = t[:m.start()]
+            out.append(["lit", t, n[2], "i"])
+        if "'" in t:
+            t = t.replace("'", "")
+            out.append(["lit", t, n[2], "i"])
+    if n[2] >= 0 and str(n[2]) != s:
+        out.append(["lit", str(n[2]), n[2], "i"])
     return out
